@@ -56,11 +56,11 @@ class _SortedGlob:
         return sorted(_real_glob(pattern, **kw))
 
 
-def build_metamodel(case, root):
+def build_metamodel(case, root, global_repo=None):
     kind = case["provider"]
     rrel = kind == "rrel"
     kw = {}
-    if case["global_repo"]:
+    if case["global_repo"] if global_repo is None else global_repo:
         kw["global_repository"] = True
     if case["builtins"]:
         bmm = metamodel_from_str(BUILTIN_GRAMMAR)
@@ -114,6 +114,8 @@ def run_case(case):
     try:
         return run_in(case, root)
     finally:
+        import textx
+        textx.clear_language_registrations()
         shutil.rmtree(root, ignore_errors=True)
 
 
@@ -139,7 +141,27 @@ def run_in(case, root):
 
     sg = _SortedGlob()
     scoping.glob = sg
-    mm, bmodels = build_metamodel(case, root)
+    import textx
+    textx.clear_language_registrations()
+    langs = case.get("langs")
+    if langs:
+        # one metamodel per registered language (same grammar text, own provider instance, own global repository)
+        mms = []
+        for li, lg in enumerate(langs):
+            lmm, _ = build_metamodel(case, root, global_repo=lg["global_repo"])
+            textx.register_language("c17lang%d" % li, pattern="*" + lg["ext"], metamodel=lmm)
+            mms.append(lmm)
+        bmodels = []
+        mm = None
+
+        def mm_of(path):
+            return mms[[i for i, lg in enumerate(langs) if path.endswith(lg["ext"])][0]]
+    else:
+        mm, bmodels = build_metamodel(case, root)
+        mms = [mm]
+
+        def mm_of(path):
+            return mm
 
     # identity tokens: (op of first sighting, file, k)
     tokens = {}
@@ -210,6 +232,7 @@ def run_in(case, root):
             if o["op"] == "loadstr":
                 m = mm.model_from_str(case["strs"][o["str"]][o["version"]])
             else:
+                mm = mm_of(paths[o["file"]])
                 m = mm.model_from_file(paths[o["file"]])
             res = "ok"
         except TextXSyntaxError as e:
@@ -231,7 +254,10 @@ def run_in(case, root):
             out["models"] = [describe(x, opi, oracle) for x in get_included_models(m)]
             repo = getattr(m, "_tx_model_repository", None)
             out["all"] = [[fidx(fn), tok(x, opi)] for fn, x in repo.all_models.filename_to_model.items()] if repo else []
-        if case["global_repo"]:
+        if langs:
+            out["grepos"] = [[[fidx(fn), tok(x, opi)] for fn, x in lm._tx_model_repository.all_models.filename_to_model.items()]
+                             if hasattr(lm, "_tx_model_repository") else None for lm in mms]
+        if hasattr(mm, "_tx_model_repository"):
             am = mm._tx_model_repository.all_models.filename_to_model
             out["grepo"] = [[fidx(fn), tok(x, opi)] for fn, x in am.items()]
             if res != "ok":
